@@ -268,8 +268,10 @@ theorem coerceInt_range (v : JVal) (i : Int) (h : coerceInt v = .int i) : inInt3
   | str x =>
     simp only [coerceInt] at h
     split at h
-    · exact intOfDec_range _ _ i h
     · cases h
+    · split at h
+      · exact intOfDec_range _ _ i h
+      · cases h
   | _ => simp [coerceInt] at h
 
 theorem parseLiteral_int_range (l : Value) (i : Int) (h : parseLiteral .int l = .int i) : inInt32 i = true := by
